@@ -90,8 +90,8 @@ def pairwise_part(run, scratch, cfg, systems_per_pair):
             lnT, lnpi0, lnn = W[(sn, d, e)]
             scores = {k: path_score(r, S, lnT, lnpi0, lnn) for k, r in byrows.items()}
             best = max(scores.values())
-            ends = sorted({byrows[k]["path"][0] + byrows[k]["path"][-1] for k, v in scores.items() if abs(v - best) <= TOL * max(1.0, abs(best))})
-            opt_ends = "opt-ends=" + "|".join(ends)
+            firsts = sorted({byrows[k]["path"][0] for k, v in scores.items() if abs(v - best) <= TOL * max(1.0, abs(best))})
+            opt_ends = "optimum-starts-with=" + "|".join(firsts)
             s1 = make_seq(a, name="s1", moltype="dna")
             s2 = make_seq(b, name="s2", moltype="dna")
             fn = global_pairwise if mode == "global" else local_pairwise
